@@ -6,7 +6,7 @@ from seed_table import rows
 R = rows()
 final = json.load(open('/verif/seeded/FINAL_RERUN.json'))
 metas = {os.path.basename(d.rstrip('/')): json.load(open(d + 'meta.json')) for d in sorted(glob.glob('/verif/seeded/*/')) if os.path.exists(d + 'meta.json')}
-def rnd(ID): return 1 if len(ID) == 3 else {'b': 2, 'c': 3, 'd': 3, 'e': 4, 'f': 4, 'g': 5, 'h': 5}[ID[3]]
+def rnd(ID): return 1 if len(ID) == 3 else {'b': 2, 'c': 3, 'd': 3, 'e': 4, 'f': 4, 'g': 5, 'h': 5, 'i': 6, 'j': 6}[ID[3]]
 per_round = {}
 for ID, m in metas.items():
     r = rnd(ID)
@@ -26,7 +26,7 @@ sec = f'''## 8. Seeded changes (detection evidence)
 Realistic property-breaking changes were produced by **fresh sub-agents**, each given only the text of
 one property (title, statement, anchors) and its own scratch git worktree of /repo (nothing from /verif),
 and asked for a change that still compiles, passes the 63 existing tests, needs something specific to
-manifest, and comes with a demonstration test.  Five rounds: 18 changes; 18 with a different emphasis per
+manifest, and comes with a demonstration test.  Six rounds: 18 changes; 18 with a different emphasis per
 property (other sites, "two cooperating conditions", multi-step sequences); 18 agents x 2 changes (A: spread
 over two sites that each look fine alone; B: needs a multi-step sequence or a value class no sampling
 generator reaches); and again 18 x 2 with the brief "the obvious mutations near the anchors are taken: find
@@ -37,7 +37,11 @@ skip helpers, fixed-point and four-character-code types, the box-type table) so 
 breaks under a stated condition, or make the change manifest for ONE media kind, ONE build profile (with or
 without arithmetic overflow checks) or ONE boundary value".  For round 5 the first-attempt column was measured
 with the harness exactly as committed before the sub-agents' summaries were read (a scratch worktree of /verif
-at fb9be64), then the checks were extended and measured again.  Each change was **re-confirmed by `bin/try_seeded.sh`** in a fresh scratch worktree (demo
+at fb9be64), then the checks were extended and measured again.  A sixth round (18 x 2) asked for changes that
+need the CONJUNCTION of two or three features that are each unremarkable alone, or that sit in an ERROR PATH /
+in what is left behind after an error, or in a numeric conversion that is wrong only for particular residues
+or when a product crosses a power of two other than 2^32; its first-attempt column was measured before any
+of its summaries was acted upon.  Each change was **re-confirmed by `bin/try_seeded.sh`** in a fresh scratch worktree (demo
 passes without the patch, fails with it; the existing suite passes with it: 65 = 59 + 4 + 2 tests), stored as
 `seeded/<id>/{{patch.diff, demo.rs, notes.md, meta.json}}`, applied to /repo (`git apply`), run against the
 quick tier of the relevant checks, and undone (`git checkout -- .`).  None is committed in /repo.  (Round 1
@@ -50,9 +54,10 @@ kept as `patch.orig.diff`.)
 
 **{caught_final} of {final['total']} are caught by the quick tier of the check of their own property**
 (several also by a neighbouring check); `seeded/FINAL_RERUN.json` is the record of the last complete re-run
-of all of them against the harness and the /repo tree as committed (`bin/rerun_seeded.sh`).  The one that is
-not ({', '.join(obsolete)}) stopped being a defect: see its entry below.  First-attempt detection per round
-(by the check of their own property, before any strengthening): ''' + ', '.join(f"round {r}: {v[1]} of {v[0]}" for r, v in sorted(per_round.items())) + f''' — {first} of {total} in all.  Rounds 3 to 5 were briefed to
+of all of them against the harness and the /repo tree as committed (`bin/rerun_seeded.sh`).  Those that are
+not ({', '.join(obsolete)}) are not defects with respect to any property (one stopped being reachable after a
+repair, one changes a value that is not representable): see their entries below.  First-attempt detection per round
+(by the check of their own property, before any strengthening): ''' + ', '.join(f"round {r}: {v[1]} of {v[0]}" for r, v in sorted(per_round.items())) + f''' — {first} of {total} in all.  Rounds 3 to 6 were briefed to
 produce exactly what the machinery of the earlier rounds would plausibly miss, so their lower rate is the
 point of the exercise.  The {strengthened} marked *yes* were missed by the check of their own property as it
 stood (some were caught by a neighbour; C15 hit a harness build failure); `meta.json` keeps the earlier
